@@ -19,11 +19,12 @@ LIB = {
 }
 
 
-def rterm(rng, vars_, p_var=0.6):
+def rterm(rng, vars_, p_var=0.6, structs=False):
+    # structs: allow f(Var); off in clause bodies because of known finding K43 (see C07)
     r = rng.random()
     if r < p_var and vars_:
         return rng.choice(vars_)
-    if r < p_var + 0.05 and vars_:
+    if r < p_var + 0.05 and vars_ and structs:
         return mkc('f', rng.choice(vars_))
     return rng.choice(CONSTS)
 
@@ -68,7 +69,7 @@ def rprogram(rng, cuts=True, lib=False):
         clauses = []
         for _ in range(rng.randint(1, 4)):
             vars_ = [X, Y, Z]
-            head = tuple((rng.choice([X, Y][:arity]) if rng.random() < 0.75 else rterm(rng, [X, Y], 0.3)) for _ in range(arity))
+            head = tuple((rng.choice([X, Y][:arity]) if rng.random() < 0.75 else rterm(rng, [X, Y], 0.3, True)) for _ in range(arity))
             if arity == 2 and rng.random() < 0.7:
                 head = (X, Y) if rng.random() < 0.8 else (X, X)
             goals = [rgoal(rng, level, sigs, vars_) for _ in range(rng.randint(1, 3))]
